@@ -81,7 +81,8 @@ def apply_step(coin, tx, mp, cmd):
     elif k == "swapin":
         i, j = int(a[1]), int(a[2])
         tx.txs_in[i], tx.txs_in[j] = tx.txs_in[j], tx.txs_in[i]
-        tx.unspents[i], tx.unspents[j] = tx.unspents[j], tx.unspents[i]
+        if i < len(tx.unspents) and j < len(tx.unspents):
+            tx.unspents[i], tx.unspents[j] = tx.unspents[j], tx.unspents[i]
         mp[i], mp[j] = mp[j], mp[i]
     elif k == "swapsol":
         i, j = int(a[1]), int(a[2])
@@ -340,7 +341,26 @@ def neighbours(op, rng):
             yield " ".join(a[:5] + [";".join(steps[:n])])
 
 
-KNOWN = {}
+def _known_coinbase(v):
+    """the history edits the only input into the null outpoint: the transaction is then a 'coinbase' for pycoin"""
+    op = str(v.get("input", ""))
+    a = op.split(" ")
+    if a[0] != "c06_hist" or a[5] == "~":
+        return False
+    try:
+        coin, f0, us0 = a[1], parse_fields(a[2]), parse_us(a[3])
+        tx = build(coin, f0, us0)
+        mp = list(range(len(tx.txs_in)))
+        for cmd in a[5].split(";"):
+            apply_step(coin, tx, mp, cmd)
+            if tx.is_coinbase():
+                return True
+    except Exception:  # noqa: BLE001
+        return False
+    return False
+
+
+KNOWN = {"coinbase-marker-input-valid": _known_coinbase}
 
 
 # ---------------------------------------------------------------- generators
